@@ -34,8 +34,11 @@ and, as statements of numpy / Python that Frame.subframe_from_probe_elements / e
   gather                            vs  mapper[a]
   index_last                        vs  {(tx, rx): i for i, (tx, rx) in enumerate(zip(tx, rx))}.get(k)
 
+Boolean masks: numpy accepts a mask of the length of the axis and ALSO the EMPTY boolean array on an axis of any length
+(nothing selected); np_take (mask_fits) follows that rule and both are generated (the empty mask on a non-empty axis is
+counted as "...:mask-empty on a non-empty axis").
+
 Deliberately NOT generated (the model is silent or known to differ there; see the final report of the tie task):
-  * an EMPTY boolean mask on a non-empty axis (numpy accepts it, np_take answers None);
   * tx of dtype uint64 together with rx of a signed dtype (or the converse) in a history: expand_frame_assuming_reciprocity
     rebuilds tx / rx from tuples mixing np.uint64 and np.int64 scalars, numpy promotes them to float64 and the constructor
     raises TypeError, whereas the model's `reinit` assumes an integer kind (generated for the constructor alone);
@@ -386,8 +389,8 @@ def gen_idx(rng, n, err=None, distinct=False, allow_int=False):
             return int(rng.choice([-10 ** 6, 10 ** 6, -n, n, -n - 1, n - 1]))
         st = [None, None, None, 1, 2, 3, -1, -1, -2, -3, 7, -7, n + 1, -(n + 1)][int(rng.integers(14))]
         return ["slice", bound(), bound(), st]
-    if n == 0:
-        return ["mask", []]
+    if n == 0 or rng.random() < 0.15:
+        return ["mask", []]          # the EMPTY boolean array: accepted on an axis of any length, selects nothing
     p = [0.5, 0.15, 0.85, 0.0, 1.0, 0.6][int(rng.integers(6))]
     return ["mask", [bool(rng.random() < p) for _ in range(n)]]
 
@@ -716,6 +719,9 @@ class Tie:
                 break
             done.append(op)
             self.chk.count(tie_C15_call=op[0] + (":" + op[1][0] if op[0] in ("sub", "el") else f":{op[1]}" if op[0] == "fil" else ""))
+            if op[0] in ("sub", "el") and op[1][0] == "mask" and len(op[1][1]) == 0:
+                axis = int(f.numtimetraces) if op[0] == "sub" else int(f.probe.numelements)
+                self.chk.count(tie_C15_call=f"{op[0]}:mask-empty on {'an empty' if axis == 0 else 'a non-empty'} axis")
             try:
                 f = self.apply(f, op, (s["sp"] >> 3) + 7 * k)
             except Exception as e:  # noqa: BLE001
@@ -1008,17 +1014,26 @@ class Tie:
                                        ["sub", ["slice", None, None, -1]], ["el", ["mask", [False, True]], False]]),
             (frame([], L3), [["exp"], ["el", ["list", [1]], True], ["sub", ["list", []]], ["fil", 5, 1]]),
             (frame([], []), [["el", ["slice", None, None, None], True], ["el", ["mask", []], False], ["exp"]]),
+            # the EMPTY boolean array on non-empty axes: no timetrace; no element / the elements as they are
+            (F4, [["sub", ["mask", []]]]),
+            (F4, [["el", ["mask", []], True]]),
+            (F4, [["el", ["mask", []], False]]),
+            (F4, [["el", ["mask", []], "default"], ["sub", ["mask", []]], ["exp"], ["fil", 0, 1]]),
+            (H3, [["sub", ["mask", []]], ["el", ["mask", []], True], ["el", ["mask", []], True]]),
+            (H3, [["sub", ["mask", []]], ["sub", ["mask", [True]]]]),
+            (H3, [["el", ["mask", []], True], ["el", ["mask", [False]], True]]),
         ):
             self.hist_case(dict(s), ops, "note")
         # positions
         for ix in (["slice", -3, None, None], ["slice", None, None, -2], ["slice", 1, -1, None], ["slice", 0, 3, 0],
                    ["mask", [True, False, True, False]], ["mask", [True, False, True]], ["list", [2, -4, 2]],
-                   ["list", [2, 4]], ["int", -1], ["int", 4]):
+                   ["list", [2, 4]], ["int", -1], ["int", 4], ["mask", []]):
             self.pos_case(4, ix, "note")
         # Probe.subprobe
         px = [[0, 0, 1, -1, 0, 0], [1, 0, 1, -1, 1, 1], [2, 0, 0, -1, 1, 0]]
         self.subprobe_case(px, ["list", [2, 0]], "note")
         self.subprobe_case(px, ["list", [3]], "note")
+        self.subprobe_case(px, ["mask", []], "note:empty mask")
 
     # ---------------------------------------------------------------------------------------------------------------------
     def generate(self):
